@@ -28,20 +28,49 @@ def rule_a(ctx, cr):
     mg = cr.need_fn("<lang::ast::Ident as std::convert::From<(&lang::token::Ident, "
                     "&lang::token::Ident)>>::from")
     ctx.touch(mg)
-    dots = [mg.const_of_operand(c.args[1]) for c in mg.calls_matching(r"String::push$")]
-    ctx.check(dots == ["."], "C10.a", "mangle/separator", mg.span,
-              "parameter names are mangled as <fn>.<param>",
-              "mangled parameter names are built with %s: they can collide with program "
-              "variables" % dots)
-    allowed = re.compile(r"(ToString>?::to_string|String::push|String::push_str|Deref>?::deref|"
-                         r"Into<.*>>?::into|From<.*>>?::from|String::as_str|AsRef<.*>>?::as_ref)$")
-    odd = sorted({c.name for c in mg.calls() if not allowed.search(c.name)})
-    ctx.check(not odd, "C10.a", "mangle/names-copied-verbatim", mg.span,
-              "the mangled name is the function name, '.', the parameter name, each copied "
-              "unchanged (so it is injective in the pair)",
-              "the mangler now also calls %s: if the function or parameter name is shortened or "
-              "rewritten, two functions (FNA / FNA$) or two parameters share one storage slot "
-              "and a nested call overwrites the caller's parameter" % odd)
+    fam = [mg] + list(cr.closures_of(mg.path))
+    for g in fam:
+        ctx.touch(g)
+    from rules import tables
+    tpls = [t for g in fam for b in g.reachable() for t in tables.block_strings(g, b)
+            if "{}" in t]
+    pushes = [g.const_of_operand(c.args[1]) for g in fam for c in g.calls_matching(r"String::push$")]
+    ctx.check(any("." in t for t in tpls) or "." in pushes, "C10.a", "mangle/separator", mg.span,
+              "mangled parameter names contain a '.', which no identifier can",
+              "mangled parameter names are built without a '.' (%s %s): they can collide with "
+              "program variables" % (tpls, pushes))
+    # the function's name goes in unchanged; only the parameter may be split into base + suffix
+    xform = re.compile(r"<impl str>::(trim\w*|replace\w*|to_\w*case|split\w*|strip_\w+|get)$|"
+                       r"ops::Index<I> for str>::index$")
+    bad = []
+    n_x = 0
+    for g in fam:
+        for c in g.calls():
+            if not xform.search(c.name) and not xform.search(c.callee or ""):
+                continue
+            n_x += 1
+            d = g.describe(c.args[0])
+            if not ("arg:param" in d or "_1.1" in d):
+                bad.append((c.name.rsplit("::", 1)[1], d[:50]))
+    ctx.check(not bad, "C10.a", "mangle/function-name-verbatim", mg.span,
+              "no transformation is applied to the function's name (%d on the parameter)" % n_x,
+              "the mangler rewrites something that is not the parameter (%s): if the function "
+              "name is shortened, FNA / FNA$ / FNA%% share one storage slot for same-named "
+              "parameters and a nested call overwrites the caller's parameter" % bad)
+    # typed by the parameter: first and last piece come from the parameter, the middle does not
+    pieces = None
+    for g in fam:
+        for c in g.calls_matching(r"fmt::Arguments::<'a>::new$"):
+            pieces = _format_pieces(g, c.args[1])
+    ok = bool(pieces) and len(pieces) == 3 and "arg:param" in pieces[0] and \
+        "arg:param" in pieces[2] and "arg:param" not in pieces[1]
+    ctx.check(ok, "C10.a", "mangle/typed-by-parameter", mg.span,
+              "<parameter base>.<function>.<parameter suffix>: Var types a name by its last "
+              "character or else its first letter, both are the parameter's",
+              "the mangled name does not begin with the parameter's own text and end with the "
+              "parameter's own suffix (pieces: %s): the variable store would type the parameter "
+              "by the function's first letter (DEFINT F makes every numeric parameter an "
+              "integer, DEFSTR S is ignored for a parameter S)" % (pieces,))
     al = cr.need_fn("lang::lex::BasicLexer::alphabetic")
     ctx.touch(al)
     from rules import lextables as lt
@@ -200,3 +229,50 @@ def rule_c(ctx, cr):
     ctx.check(all(c.name == "mach::stack::Stack<T>::push" for c in pushes), "C10.c",
               "fn/uses-checked-stack", f.span, "frames are pushed through Stack::push (OUT OF MEMORY "
               "on runaway recursion)")
+
+
+def _agg_behind(g, op, want, depth=0):
+    """follow refs / reborrows / copies from an operand to the aggregate statement it denotes"""
+    from lib.mir import op_place
+    p = op_place(op)
+    if p is None or depth > 8:
+        return None
+    for d in g.defs().get(p["local"], []):
+        if d[0] != "stmt":
+            continue
+        rv = d[3]
+        if rv["k"] == "aggregate" and rv.get("agg") == want:
+            return rv
+        if rv["k"] == "ref":
+            r = _agg_behind(g, {"k": "copy", "place": {"local": rv["place"]["local"], "proj": []}},
+                            want, depth + 1)
+            if r is not None:
+                return r
+        if rv["k"] == "use":
+            r = _agg_behind(g, rv["op"], want, depth + 1)
+            if r is not None:
+                return r
+    return None
+
+
+def _format_pieces(g, args_op):
+    """describe, in order, the values interpolated by a format_args! call"""
+    from lib.mir import op_place
+    arr = _agg_behind(g, args_op, "array")
+    if arr is None:
+        return None
+    out = []
+    for o in arr["ops"]:
+        v = g.value_of_operand(o)
+        if not (v and v.get("k") == "call"):
+            return None
+        a = v["call"].args[0]               # &(*_t.N)  or a plain reference
+        d = g.describe(a)
+        m = re.search(r"\(\*_(\d+)\.(\d+)\)", d)
+        if m:
+            tup = _agg_behind(g, {"k": "copy", "place": {"local": int(m.group(1)), "proj": []}},
+                              "tuple")
+            if tup is not None and int(m.group(2)) < len(tup["ops"]):
+                d = g.describe(tup["ops"][int(m.group(2))])
+        out.append(d)
+    return out
